@@ -93,7 +93,7 @@ func c14(c *ctx) {
 			for i := range r.Hist {
 				sb.WriteString(resKey(&r.Hist[i]) + fmt.Sprint(enterLog(r.Hist[i].Events)) + ";")
 			}
-			return sb.String()
+			return sb.String() + fmt.Sprintf(" late=%q", r.LateErr)
 		}
 		return resKey(r) + fmt.Sprint(enterLog(r.Events))
 	}
